@@ -1,5 +1,6 @@
 """C23 -- built-in retry policies make bounded, consistency-safe decisions."""
 import itertools
+import os
 import warnings
 
 from spec import retry as R
@@ -26,6 +27,10 @@ ASSUMPTIONS = ["spec.retry transcribes the class/method docstrings of cassandra/
                "NeverRetryPolicy.on_request_error has no documentation and is only checked for well-formedness"]
 LEVEL_TEXT = ("every failure description in the bounded domain has been evaluated (exhaustive); descriptions with counts "
               "above the bound are not covered")
+
+# the quick tier is a few CPU-seconds; forking a worker pool costs more than it saves (and far more on a
+# loaded machine)
+SERIAL = os.environ.get("VERIF_TIER") == "quick"
 
 _POLICY_CLASS = {"default": "RetryPolicy", "fallthrough": "FallthroughRetryPolicy", "never": "NeverRetryPolicy",
                  "downgrading": "DowngradingConsistencyRetryPolicy"}
